@@ -446,7 +446,9 @@ def last_core_optimal(n, r, m, lamb, weighted, nswp, seed, opt=None):
         Z = [G.copy() for G in Y]
         Z[1] = Z[1] + eps * np.abs(Z[1]).max() * g.normal(size=Z[1].shape)
         F1 = _obj(Z, I, y, lamb, w)
-        if F1 < F0 * (1 - 1e-12):
+        # (a float32 core 1 is the minimiser rounded to float32: the gradient there is of the order of the float32 rounding unit,
+        # so a perturbation may lower F by that order; the threshold follows the tolerance of the normal-equation check above)
+        if F1 < F0 * (1 - (1e-12 if tol == 1e-10 else 1e-6)):
             return FAIL(f'perturbing core 1 lowers the objective: {F0:.15e} -> {F1:.15e}')
     return PASS
 
